@@ -521,3 +521,15 @@ func c02R5(c *Ctx, r *Report, e *aliasEngine, scope map[*ssa.Function]bool, fns 
 		}
 	}
 }
+
+// c02BoundsRun runs C02.R5.bounds by itself (for properties that borrow it).
+func c02BoundsRun(c *Ctx, r *Report) {
+	e := newAliasEngine(c)
+	scope := e.reachable(decodeEntryPoints(c))
+	var fns []*ssa.Function
+	for f := range scope {
+		fns = append(fns, f)
+	}
+	sort.Slice(fns, func(i, j int) bool { return fnDisplay(fns[i]) < fnDisplay(fns[j]) })
+	c02R5(c, r, e, scope, fns)
+}
